@@ -21,6 +21,9 @@ R20.len     at every dispatchTask(task, n) every array handed to the task is cov
 R20.wr      in VectorizedFunction/MemberFunction::apply the masked accessor of x is constructed only where
             any_masked(x) holds and the direct one only where it does not; results are accessed through Writable*Access,
             arguments through ReadOnly*Access; every normal return of apply passes through a dispatchTask
+R20.acc     (checks/c20ir.py, on the IR) element i of a Direct accessor is storage[i * stride], of a Masked accessor
+            storage[indices[i] * stride] - what FixedArray::operator[] designates; accessor constructors take storage, stride and
+            index table from the array and complete only on an array of their kind (writable ones only on a writable array)
 R20.gil     nothing reachable from an execute() (worker threads run without the GIL) and nothing after a
             PY_IMATH_LEAVE_PYTHON in the same function calls the Python C API or boost::python
 """
@@ -612,6 +615,9 @@ def main(rep, ws, tier):
     out = []; counts = {}
     for name, fnc in RULES: counts[name] = fnc(fx, out)
     emit(rep, out)
+    from . import c20ir
+    nacc = c20ir.main_access(rep, ws)
+    rep.floor('element accessor members (operator[] and constructors)', nacc, 9)
     rep.floor('Task::execute overrides', counts['range'], 35)
     rep.floor('dispatchTask sites + length helpers', counts['len'], 60)
     rep.floor('vectorised apply functions', counts['wr'], 8)
